@@ -239,12 +239,12 @@ func (w *vWorld) renderParams(p any) string {
 			am, _ := m[k].(map[string]any)
 			g := func(x string) string { s, _ := am[x].(string); return vMode(s) }
 			out += " acs=" + g("want") + "/" + g("given") + "/" + g("mode")
-		case "user", "tmpname":
+		case "user", "tmpname", "topic":
 			s, _ := m[k].(string)
 			if k == "tmpname" {
 				out += " tmpname"
 			} else {
-				out += " user=" + w.tname(s)
+				out += " " + k + "=" + w.tname(s)
 			}
 		default:
 			out += fmt.Sprintf(" %s=%v", k, m[k])
